@@ -43,7 +43,7 @@ def run_one(m, with_tests, tier='quick'):
             p = subprocess.run([os.path.join(HERE, 'check'), prop, '--tier', m.get('tier', tier)], env=env,
                                capture_output=True, text=True, cwd=HERE)
             lines = [l for l in p.stdout.splitlines() if l.startswith(('VIOLATION', 'violation class', 'HARNESS', 'KNOWN'))]
-            out[prop] = {'exit': p.returncode, 'caught': p.returncode == 1, 's': round(time.time() - t0, 1), 'lines': lines[:4]}
+            out[prop] = {'exit': p.returncode, 'caught': (p.returncode == 0) if m.get('control') else (p.returncode == 1), 's': round(time.time() - t0, 1), 'lines': lines[:4]}
             if p.returncode == 2:
                 out[prop]['tail'] = (p.stdout + p.stderr)[-1500:]
         shutil.rmtree(rdir, ignore_errors=True)
